@@ -8,7 +8,7 @@ NOTE=dict(ns['NOTE']); NOTE.update(NOTE_R2); NOTE.update(NOTE_R3); NOTE.update(N
 def key(d):
     m=re.match(r'(C\d+)-(?:r(\d))?m(\d)', d); return (m.group(1), int(m.group(2) or 1), int(m.group(3)))
 rows=[]
-for d in sorted(os.listdir('/verif/seeded'), key=key):
+for d in sorted((x for x in os.listdir('/verif/seeded') if re.match(r'C\d+-', x)), key=key):
     m=json.load(open('/verif/seeded/%s/meta.json'%d))
     what,how,note=NOTE.get(d,('','',''))
     caught=', '.join(m['caught_by']) or 'NOT CAUGHT'
